@@ -122,6 +122,14 @@ def r1(ctx):
         ctx.violation("depth/canonical", ctx.where(VISIT_DIR), "the level must be computed from the canonical path of the listed directory")
 
 
+def _descent_cond_ok(rc):
+    """reviewed conditions under which a directory entry is entered (rendered atom)"""
+    flat = rc.replace("(", "").replace(")", "")
+    return rc == "pass_ignores" or ("depth" in rc and "max" in rc) or ("depth" in rc and "min" in rc) or rc.startswith("let Result::Ok(file_type)") or \
+        rc.startswith("let Result::Ok(entry)") or rc == "ok" or rc.startswith("self.ok_to_visit_dir(") or flat.startswith("traversal_mode ==") or \
+        flat.startswith("traversal_mode !=") or flat.startswith("!traversal_mode") or "is_dir_like" == rc
+
+
 def r2(ctx):
     """no unlisted skip: inside the directory loop every entry reaches check_file unless a listed condition holds"""
     hir = ctx.anchor_hir(VISIT_DIR)
@@ -129,7 +137,7 @@ def r2(ctx):
     if len(sites) != 1:
         ctx.violation("anchor/check_file-site", VISIT_DIR, "expected one check_file(entry, None) site")
         raise Abort()
-    gs = [g_str(t) for t in guards_of(hir, sites[0])]
+    gs = [g_str(t) for t in with_exits(guards_of(hir, sites[0]), after_loop=True)]
     allowed = 0
     for g in gs:
         ok = False
@@ -141,8 +149,12 @@ def r2(ctx):
             ok = True
         elif g[0] == "if" and g[1] == "pass_ignores":
             ok = True
-        elif g[0] == "if" and "depth" in g[1] and "min" in g[1]:
-            ok = True
+        elif g[0] == "ifnot" and g[1] == "!pass_ignores":
+            ok = True        # `if !pass_ignores { continue }`
+        elif g[0] in ("if", "ifnot") and "depth" in g[1] and "min" in g[1]:
+            ok = True        # the depth gate (its value is decided by R1)
+        elif g[0] == "ifnot" and "limit" in g[1] and "found" in g[1]:
+            ok = True        # the LIMIT stop written as a guard clause (exactness: C06-R2)
         ctx.obligation(ok)
         if ok:
             allowed += 1
@@ -157,6 +169,8 @@ def r2(ctx):
     pos = order.index(sites[0]) if sites[0] in order else len(order)
     exits = 0
     for i, x in enumerate(order[:pos]):
+        if x["k"] == "Continue" and not [g_ for g_ in guards_of(body, x) if g_[0] == "loop"]:
+            continue        # `if c { continue }` of the entry loop is a guard clause: it was read as a guard of the report above
         if x["k"] in ("Break", "Continue", "Ret"):
             conds = [g_str(t) for t in guards_of(body, x) if t[0] in ("if",)]
             txt = " && ".join(c[1] for c in conds)
@@ -173,16 +187,19 @@ def r2(ctx):
     # the same for the two descent sites: a directory inside the window is entered under the listed conditions only
     for c in walk_exprs(hir):
         if c["k"] == "MCall" and c["m"] in ("push_back", "visit_dir"):
-            gsd = guards_of(hir, c)
+            gsd = with_exits(guards_of(hir, c), after_loop=True)
             if not any(t[0] == "match" and "read_dir" in render(t[1]) for t in gsd):
                 continue
-            for t in gsd:
-                if t[0] != "if":
-                    continue
-                for cj in conjuncts(t[1]):
+            pos_atoms, neg_atoms = guard_atoms(gsd)
+            lets_ = [t[1] for t in gsd if t[0] == "if" and t[1]["k"] == "LetE"]
+            for cj in pos_atoms + lets_ + [{"k": "Un", "op": "!", "e": a_, "sp": a_.get("sp", "?")} for a_ in neg_atoms]:
+                if True:
                     rc = render(peel(cj, methods=False))
-                    okc = rc == "pass_ignores" or ("depth" in rc and "max" in rc) or rc.startswith("let Result::Ok(file_type)") or rc == "ok" or \
-                        rc.startswith("self.ok_to_visit_dir(") or "traversal_mode ==" in rc.replace("(", "") or rc.startswith("(traversal_mode")
+                    if rc.startswith("!") and ("limit" in rc or "is_buffered" in rc or "found" in rc):
+                        continue    # the LIMIT stop written as a guard clause (C06-R2)
+                    if rc.startswith("!") and rc[1:].lstrip("(").startswith("traversal_mode"):
+                        continue
+                    okc = _descent_cond_ok(rc)
                     ctx.obligation(okc)
                     if not okc:
                         ctx.violation("skip/descent-guard/%s" % rc[:50], ctx.where(VISIT_DIR, cj),
@@ -464,6 +481,44 @@ def r7(ctx):
         # the entry loop and are the member loop's business (C19-R1)
         loops = [g[1] for g in gs if g[0] == "loop"]
         if x["k"] in ("Break", "Continue") and len(loops) > 1:
+            continue
+        if x["k"] == "Continue":
+            # a `continue` of the entry loop is a guard clause for what follows it in the body: it matters only if a descent
+            # (or the report) follows, and then its condition must be one of the reviewed ones
+            body = loops[-1]["body"] if loops and "body" in loops[-1] else (loops[-1] if loops else h)
+            order = list(walk_exprs(body))
+            pos = next((i for i, y in enumerate(order) if y is x), -1)
+            later = [y for y in order[pos + 1:] if y["k"] == "MCall" and y["m"] in ("push_back", "visit_dir", "check_file")]
+            n += 1
+            if not later:
+                ctx.obligation(True)
+                continue
+            own = [g for g in gs if g[0] in ("if", "match")][-1:] if gs else []
+            okc = True
+            why = ""
+            for g in own:
+                if g[0] == "match":
+                    okc = "Err" in render_pat(g[2])         # a failing entry / file_type: counted and skipped (C17-R1)
+                    why = guard_text(g)
+                else:
+                    pos_, neg_ = guard_atoms([g])
+                    for a_ in neg_:
+                        rc = render(peel(a_, methods=False))
+                        if not _descent_cond_ok(rc):
+                            okc, why = False, "!" + rc
+                    for a_ in pos_:
+                        rc = render(peel(a_, methods=False))
+                        # positive conditions of a skip: the complement of a reviewed condition, or the LIMIT stop
+                        if not (("limit" in rc and "found" in rc) or (rc.startswith("!") and _descent_cond_ok(rc[1:].strip())) or
+                                ("max_depth" in rc) or ("min_depth" in rc) or rc.replace("(", "").startswith("traversal_mode")):
+                            okc, why = False, rc
+            ctx.obligation(okc)
+            if not okc:
+                inner = [t for t in texts if "is_zip_archive" in t]
+                ctx.violation("visit_dir/early-exit/continue/%s" % re.sub(r"[^A-Za-z0-9_.!]+", "_", why or texts[-1])[:60], ctx.where(VISIT_DIR, x),
+                              "`continue` inside the entry loop of visit_dir under `%s`%s: the entries it skips are neither descended into nor "
+                              "followed by their siblings, so rows of the depth window are lost" %
+                              (why or texts[-1], " (archive branch: a directory may carry an archive name)" if inner else ""))
             continue
         n += 1
         last = texts[-1] if texts else ""
